@@ -51,4 +51,5 @@ def run(ctx, rep):
     rep.run(RP.rule_lambda_names_by_evaluation, ctx, rep, "W12")
     # W13: a const member is registered def_readonly (def_readwrite of a const member does not compile) (= C04 B5)
     rep.run(RP.rule_property_polarity, ctx, rep, "W13")
+    rep.run(RP.rule_class_block_by_evaluation, ctx, rep, "W14", part="wellformed")
     rep.run(RF.rule_locals_defined, ctx, rep, "U1", packages=("gtwrap/pybind_wrapper.py",), min_functions=3)
